@@ -289,6 +289,22 @@ func (fx *FnCtx) execFunction(fn *ssa.Function, args []Val, bindings []Val, st *
 	var rets []retPoint
 	heads := map[*ssa.BasicBlock]*loopHead{}
 	fr.heads = heads
+	// loop contracts are keyed by ordinal: if the function's loop structure
+	// is not the one they were written for, they would be applied to the
+	// wrong loops - the proof then says nothing about this code (a function
+	// without any loop is still decided exactly: nothing is cut)
+	if isRoot && fr.spec != nil && len(fr.loops.ordered) > 0 {
+		actual := len(fr.loops.ordered)
+		bad := fr.spec.LoopCount > 0 && fr.spec.LoopCount != actual
+		for ord := range fr.spec.Loops {
+			if ord >= actual {
+				bad = true
+			}
+		}
+		if bad {
+			fx.bindErrors = append(fx.bindErrors, fmt.Sprintf("%s: the function has %d loop(s), its loop contracts were written for a different loop structure", fr.path, actual))
+		}
+	}
 
 	for _, b := range fr.loops.order {
 		cur := fx.merge(fmt.Sprintf("b%d", b.Index), ins[b])
@@ -1187,7 +1203,7 @@ func (fr *Frame) exec(in ssa.Instruction, st *State) {
 	case *ssa.Send:
 		unsupp("channel operation %T in %s", in, fr.fn)
 	case *ssa.SliceToArrayPointer:
-		unsupp("slice to array pointer conversion")
+		fr.execSliceToArrayPointer(x, st)
 	default:
 		unsupp("instruction %T (%s) in %s", in, in, fr.fn)
 	}
@@ -1245,6 +1261,50 @@ func (fr *Frame) execAlloc(x *ssa.Alloc, st *State) {
 	ref := fx.newRef(st, x.Comment)
 	z := zeroVal(sh)
 	fx.storeObjComps(st, sh, ref, 0, z.ts)
+	fr.regs[x] = Val{sh: psh, ts: []T{ref}}
+}
+
+// execSliceToArrayPointer: (*[N]T)(s) panics unless len(s) >= N.  Only the
+// value conversion [N]T(s) is modelled further - the pointer is used for
+// nothing but loads - as a fresh array holding the first N elements (a
+// pointer that is stored or written through would alias the slice's memory).
+func (fr *Frame) execSliceToArrayPointer(x *ssa.SliceToArrayPointer, st *State) {
+	fx := fr.fx
+	sv := fr.val(x.X)
+	psh := shapeOf(x.Type())
+	ash := psh.elem
+	if sv.sh.kind != KSlice || ash == nil || ash.kind != KArr || ash.n < 0 {
+		unsupp("slice to array pointer conversion of %s", sv.sh.key)
+	}
+	fx.oblige("bounds", fr.path+"/bounds/slicetoarray#", st, le(num(ash.n), sv.slLen()), x.Pos(), "")
+	if refs := x.Referrers(); refs != nil {
+		for _, r := range *refs {
+			switch u := r.(type) {
+			case *ssa.DebugRef:
+			case *ssa.UnOp:
+				if u.Op != token.MUL {
+					unsupp("slice to array pointer that is not only loaded from")
+				}
+			default:
+				unsupp("slice to array pointer that is not only loaded from")
+			}
+		}
+	}
+	if ash.n > 64 {
+		unsupp("slice to array conversion of %d elements", ash.n)
+	}
+	ref := fx.newRef(st, "s2a")
+	ncomp := ash.elem.ncomp()
+	var comps []T
+	for c := 0; c < ncomp; c++ {
+		back := fx.sliceBacking(st, sv.sh.elem, sv.slRef(), c)
+		arr := zeroVal(ash).ts[c]
+		for i := int64(0); i < ash.n; i++ {
+			arr = store(arr, num(i), sel(back, add(sv.slOff(), num(i))))
+		}
+		comps = append(comps, fx.define("s2a", ash.sorts()[c], arr))
+	}
+	fx.storeObjComps(st, ash, ref, 0, comps)
 	fr.regs[x] = Val{sh: psh, ts: []T{ref}}
 }
 
@@ -2013,10 +2073,21 @@ func bitXor(fx *FnCtx, x, y T, ii intInfo) T { return bitwise(fx, "xor", x, y, i
 
 // bitwise expands a bit operation on narrow integers bit by bit.
 func bitwise(fx *FnCtx, op string, x, y T, ii intInfo) T {
-	if ii.bits > 16 {
-		unsupp("bitwise %s on %d-bit non-constant operands", op, ii.bits)
-	}
 	ux, uy := toUnsigned(x, ii), toUnsigned(y, ii)
+	if ii.bits > 16 {
+		// wide operands: 16-bit chunks, each expanded bit by bit (exact, but
+		// heavy for the solvers; used by little code)
+		chunk := intInfo{bits: 16}
+		ux = fx.define("wu", sInt, ux)
+		uy = fx.define("wu", sInt, uy)
+		var sum []T
+		for k := uint(0); k < ii.bits; k += 16 {
+			cx := fx.define("wc", sInt, app("mod", app("div", ux, numBig(pow2(k))), "65536"))
+			cy := fx.define("wc", sInt, app("mod", app("div", uy, numBig(pow2(k))), "65536"))
+			sum = append(sum, app("*", bitwise(fx, op, cx, cy, chunk), numBig(pow2(k))))
+		}
+		return fromUnsigned(app("+", sum...), ii)
+	}
 	var parts []T
 	for i := uint(0); i < ii.bits; i++ {
 		bx := app("mod", app("div", ux, numBig(pow2(i))), "2")
